@@ -196,3 +196,37 @@ def check_C06(tier: str, seed: int) -> int:
     v.assumptions = ["connected route estimates (router contract, C13)", "positive step length",
                      "strict positional progress for sub-cell advances is NOT claimed (oracle hypothesis on point_along_link; known finding F16)"]
     return v.finish()
+
+
+COLL_BUDGET = {"quick": 320, "thorough": 20000}
+
+
+@register("C08")
+def check_C08(tier: str, seed: int) -> int:
+    v = fw.Verdict("C08", tier, seed, "proof")
+    ps = fw.ProofStatus("C08", ["Properties.C08"])
+    cl = layers.coll_layer(seed, COLL_BUDGET[tier])
+    ok1 = use_simple_layer(v, "C08", cl, "coll", ["C08"])
+    n_hist, steps = HIST_BUDGET[tier]
+    hl = layers.hist_layer(seed, n_hist, steps)
+    ok2 = use_hist_layer(v, "C08", hl, ["C08"])
+    if (not ps.ok or not ok1 or not ok2) and not v.violations:
+        big = layers.coll_layer(seed + 7919, COLL_BUDGET[tier] * 8)
+        use_simple_layer(v, "C08", big, "coll", ["C08"])
+        v.notes.append(f"escalated search: {big['ops']} further operations")
+    if not ps.ok:
+        v.broken(f"proof obligation for C08: {ps.failing_obligation()}", {"theorem_or_build": ps.failing_obligation()})
+    cov = {**fw.proof_coverage(ps), **hist_coverage(hl)}
+    cov["evaluations"] = cl["ops"] + hl["records"]
+    cov["distinct_nontrivial"] = len(cl["shapes"])
+    cov["rule"] = ("function-level: random add / modify / remove sequences (5-40 ops, re-adds of existing ids, moves inside a search cell, across search cells and back, "
+                   "missing ids, forbidden station/base moves) on vehicles, requests, stations and bases of a real SimulationState through simulation_state_ops, search resolution in {7,9,12}; "
+                   "all eight maps compared with the Lean Coll model after every operation and checked by the Lean predicate Index.ok; distinct_nontrivial = distinct "
+                   "(entity kind, operation, outcome) triples; plus the history layer (indexes compared and checked after every phase)")
+    cov["samples"] = [cl["sample"]] + cov.get("samples", [])
+    cov["operation_sequences"] = cl["cases"]
+    cov["operations"] = cl["ops"]
+    v.coverage = cov
+    v.assumptions = ["h3_to_parent is an arbitrary function in the theorems; the recorded parent table is used in the runs",
+                     "request arrivals during a run use fresh ids (re-adds are covered by the function-level theorem Hive.C08.ops)"]
+    return v.finish()
